@@ -6,3 +6,9 @@ package c15
 
 //line /nonexistent/generated/handlers.go:10
 func raiseFromGenerated(kind string) { raise(kind) }
+
+// The function below claims to sit on the last line of a file that does not end
+// with a newline (testdata/lastline.go.src, line 4): legal for generated code.
+
+//line /verif/harness/c15/testdata/lastline.go.src:4
+func raiseFromLastLine(kind string) { raise(kind) }
